@@ -41,7 +41,7 @@ func TestC05(t *testing.T) {
 	RunSeq(t, SeqCheck{
 		Prop: "C05",
 		Profile: Profile{Name: "compaction", Weights: weightsWith(map[string]int{"fork_compact": 9, "compact": 6, "prune_yes": 7, "set": 30, "claim": 9, "claim_id": 6, "plan": 4}),
-			BadRef: 4, Spoil: 3, Results: 18, MinSteps: 8, MaxSteps: 34},
+			BadRef: 4, Spoil: 3, Results: 18, MinSteps: 8, MaxSteps: 34, RedatePct: -1}, // C05 speaks of logs the CLI produces: time grows along them
 		Rule: "random command histories with a fork point: the store is copied, the copy compacted (and compacted again), and every later command is run on both copies; non-trivial = before a compaction the history has a prune, a re-claim/unclaim, a title/body/epic change, >= 2 results on one task or a reopen, and >= 1 mutation follows the fork" + distinctRule,
 		NonTrivial: func(h []stepInfo) bool {
 			fork := -1
